@@ -24,6 +24,8 @@ type c05Case struct {
 	// Spare > 0: every field is handed over as a prefix of a larger array whose spare capacity
 	// (Spare bytes behind the length) is filled with non-zero bytes — padding must still be zeros.
 	Spare int `json:"spare"`
+	// an operation of another family run immediately before the call (see disturb; omitted = none)
+	Before int `json:"before,omitempty"`
 }
 
 // withSpare returns a slice equal to b whose backing array continues with n garbage bytes.
@@ -85,6 +87,7 @@ func checkC05(c c05Case) verdict {
 	if c.Spare > 0 {
 		labels = append(labels, "spare-capacity")
 	}
+	disturb(c.Before)
 	got, err := otp.GenerateOCRA(secret, suite, spareIn(c.In, c.Spare))
 	if err != nil || got != want {
 		return bad(nt, labels, "GenerateOCRA(suite %q via %s, cfg %+v, in %x) = %q, %v; RFC 6287 value is %q", cfg.Raw, c.Suite.Via, cfg, c.In, got, err, want)
@@ -107,6 +110,12 @@ var c05Main = newPart("C05", "main",
 	checkC05)
 
 func genC05(t *rapid.T) c05Case {
+	c := genC05Base(t)
+	c.Before = drawDisturb(t) // drawn last: the cases of a seed are otherwise what they were
+	return c
+}
+
+func genC05Base(t *rapid.T) c05Case {
 	c := c05Case{Suite: drawSuite(t), Key: gen.Key().Draw(t, "key"), Sp: gen.DrawSpelling(t)}
 	_, cfg, _ := c.Suite.resolve()
 	c.In = drawAdmissible(t, cfg)
